@@ -9,11 +9,12 @@ Tables extracted from the repo on every run: Pywbem/Generated/CimTypes.lean, Pyw
 -/
 import Proofs.Lemmas.CimTypes
 import Proofs.Lemmas.CimUnpack
+import Proofs.Lemmas.TypedElems
 import Proofs.Lemmas.DateTime
 import Proofs.Lemmas.DateTimeWF
 
 namespace C06
-open Pywbem.Proto Pywbem.Model.CimTypes Pywbem.Model.DateTime Pywbem.Model.CimValue
+open Pywbem.Proto Pywbem.Model.CimTypes Pywbem.Model.DateTime Pywbem.Model.CimValue Pywbem.Model.TypedElems
 open Proofs.CimTypes Proofs.DateTime
 
 /-! ## (1) integer types -/
@@ -351,5 +352,96 @@ theorem C06_type_from_name_table :
   cases t with
   | int ty => cases ty <;> decide
   | _ => first | decide | simp [Ty.className] at ht
+
+/-! ## (5) the typed element classes and every public way of giving them a value
+    (Model/TypedElems.lean: CIMProperty / CIMParameter / CIMQualifier / CIMQualifierDeclaration, CIMInstance) -/
+
+/-- the output of cimvalue() keeps the class invariant of CIMInt objects (`scInv`), so values read back from a typed
+    element can be given to another one: the `scInv` hypotheses below are about user-supplied objects only -/
+theorem C06_cimvalue_keeps_class_invariant (env : Env) (v r : Sc) (t : Ty) (h : cimvalueSc env v t = .ok r)
+    (hi : scInv v = true) : scInv r = true :=
+  cimvalueSc_scInv env v r t h hi
+
+/-- `__init__` of the four typed element classes raises only TypeError / ValueError — for every combination of
+    value (scalar, array, None), `type` (given, None = inferred, unknown name), `is_array`, `embedded_object`,
+    `reference_class` -/
+theorem C06_elem_constructor_errors (env : Env) (k : ElemKind) (a : Args) (x : PyExc) (h : mkElem env k a = .error x) :
+    x = .typeError ∨ x = .valueError :=
+  mkElem_err env k a x h
+
+/-- a constructed element has a type from ALL_CIMTYPES / QUALIFIER_CIMTYPES (tables extracted from the source; never an
+    unknown name, never `reference` for the qualifier classes) and its value is what cimvalue() made of the argument -/
+theorem C06_elem_constructor_stores_cimvalue (env : Env) (k : ElemKind) (a : Args) (e : Elem) (h : mkElem env k a = .ok e) :
+    e.kind = k ∧ typeAllowed k e.type = true ∧ e.type ≠ .unknown ∧ cimvalue env a.value (some e.type) = .ok e.value := by
+  obtain ⟨h1, h2, h3⟩ := mkElem_ok env k a e h
+  refine ⟨h1, h2, ?_, h3⟩
+  intro hu; rw [hu] at h2; revert h2; cases k <;> decide
+
+/-- **a value given to the constructor of a typed element is stored as exactly that CIM type** (each array item),
+    for every CIM type except string / char16 (known finding C06-KF1, see `Typed`) — partial in exactly that sense.
+    Full statement (fails for string/char16, witness `C06_cimvalue_typed_fails_at`):
+    mkElem env k a = .ok e → hasType e.value e.type. -/
+theorem C06_elem_constructor_typed_partial (env : Env) (k : ElemKind) (a : Args) (e : Elem) (h : mkElem env k a = .ok e)
+    (hi : valInv a.value = true) : Typed e = true :=
+  mkElem_typed env k a e h hi
+
+/-- the `value` setter of all four classes: keeps kind / type / is_array / embedded_object, stores cimvalue(v, type),
+    raises only TypeError / ValueError, and what it stores is typed (same exclusion) -/
+theorem C06_value_setter (env : Env) (e : Elem) (v : Val) :
+    (∀ e', setValue env e v = .ok e' →
+        e'.kind = e.kind ∧ e'.type = e.type ∧ cimvalue env v (some e.type) = .ok e'.value ∧
+        (valInv v = true → Typed e' = true)) ∧
+    (∀ x, setValue env e v = .error x → x = .typeError ∨ x = .valueError) := by
+  constructor
+  · intro e' h
+    obtain ⟨h1, h2, _, _, h5⟩ := setValue_ok env e e' v h
+    exact ⟨h1, h2, h5, fun hi => setValue_typed env e e' v h hi⟩
+  · intro x h; exact setValue_err env e v x h
+
+/-- **every public way of giving a value to a typed property**: after ANY history of `CIMInstance.update()`,
+    `update_existing()` (all argument forms are item lists), `inst[name] = value | CIMProperty(…)` and
+    `inst.properties[name].value = v` steps — any length, any interleaving, steps that raise in the middle of an item
+    list included — every property of the instance holds a value of exactly its CIM type (up to C06-KF1), and every
+    exception a step raised is TypeError / ValueError (or KeyError for `properties[unknown name]`). -/
+theorem C06_instance_history_typed (env : Env) (i : Inst) (ops : List Op) (hi : i.typed = true)
+    (ho : ∀ o ∈ ops, opInv o = true) :
+    (run env i ops).1.typed = true ∧
+    ∀ x, some x ∈ (run env i ops).2 → (x = .typeError ∨ x = .valueError ∨ x = .keyError) := by
+  obtain ⟨h1, h2⟩ := run_inv env i ops hi ho
+  refine ⟨h1, fun x hx => ?_⟩
+  rcases h2 x hx with (h | h) | h
+  · exact Or.inl h
+  · exact Or.inr (Or.inl h)
+  · exact Or.inr (Or.inr h)
+
+/-- in particular from the empty instance -/
+theorem C06_instance_history_typed_from_empty (env : Env) (ops : List Op) (ho : ∀ o ∈ ops, opInv o = true) :
+    (run env {} ops).1.typed = true :=
+  (C06_instance_history_typed env {} ops (by decide) ho).1
+
+/-- `update_existing()` on an existing name IS the value setter of that property (it cannot bypass cimvalue());
+    unknown names are skipped -/
+theorem C06_update_existing_is_value_setter (env : Env) (i : Inst) (k : Nat) (v : Val) :
+    setExisting env i k v =
+      match i.get? k with
+      | none => .ok i
+      | some e => (setValue env e v).map (fun e' => { props := putProp i.props k e' }) := by
+  unfold setExisting
+  cases i.get? k with
+  | none => rfl
+  | some e => cases h : setValue env e v <;> simp [h, bind, Except.bind, pure, Except.pure, Except.map]
+
+-- non-vacuity: a history with a rejected step in the middle of an item list
+example :
+    (run ⟨fun _ _ => none, fun _ => none, fun _ => none⟩ {}
+      [.setItem 0 (.value (.sc (.cimInt .uint8 5))), .setItem 1 (.prop 1 { value := .sc .none, type := some (.int .sint8) }),
+       .updateExisting [(1, .sc (.int (-128))), (0, .sc (.int 300)), (1, .sc (.int 7))],
+       .propValue 7 (.sc (.int 1))]).2 = [none, none, some .valueError, some .keyError] := by decide
+example :
+    ((run ⟨fun _ _ => none, fun _ => none, fun _ => none⟩ {}
+      [.setItem 0 (.value (.sc (.cimInt .uint8 5))), .setItem 1 (.prop 1 { value := .sc .none, type := some (.int .sint8) }),
+       .updateExisting [(1, .sc (.int (-128))), (0, .sc (.int 300)), (1, .sc (.int 7))],
+       .propValue 7 (.sc (.int 1))]).1.props.map (fun p => (p.1, p.2.value))) =
+      [(0, .sc (.cimInt .uint8 5)), (1, .sc (.cimInt .sint8 (-128)))] := by decide
 
 end C06
